@@ -145,6 +145,35 @@ OrdRules(o, a, b) ==
          \cup (IF B3(o.defbot, TRUE) THEN {} ELSE {<<"C03", "default-not-bot">>})
          \cup (IF o.ch = (RefJoin(b, a) # b) THEN {} ELSE {<<"C02", "changed-flag">>})
 
+(* LatticeFrom between backing representations must carry the value over unchanged (C04) *)
+FromRules(o, a) ==
+    IF o.panic THEN {<<"C04", "lattice_from-panic">>}
+    ELSE IF o.out = a THEN {} ELSE {<<"C04", "lattice_from">>}
+
+(* Compound lattices whose values are tombstone sets (MapUnion<key -> value>, WithBot<value> as a
+   map with at most the key 0): nested values are sets of <<key, value>> with distinct keys and
+   non-bottom values; the join is key-wise, an absent key adopts the other side's value
+   (through LatticeFrom in the code). *)
+NKeys(N) == {e[1] : e \in N}
+NGet(N, k) == (CHOOSE e \in N : e[1] = k)[2]
+NJoin(A, B) ==
+    {<<k, IF k \in NKeys(A) /\ k \in NKeys(B) THEN RefJoin(NGet(A, k), NGet(B, k))
+          ELSE IF k \in NKeys(A) THEN NGet(A, k) ELSE NGet(B, k)>> : k \in NKeys(A) \cup NKeys(B)}
+NLawRules(o, a, b, c) ==
+    IF o.panic THEN {<<"C01", "panic">>}
+    ELSE (IF o.ab = NJoin(a, b) /\ o.ba = NJoin(b, a) /\ o.aa = NJoin(a, a)
+             /\ o.abc1 = NJoin(NJoin(a, b), c) /\ o.abc2 = NJoin(a, NJoin(b, c))
+          THEN {} ELSE {<<"C04", "merge-not-join">>})
+         \cup (IF o.ab = o.ba /\ B3(o.eqc, TRUE) THEN {} ELSE {<<"C01", "commutativity">>})
+         \cup (IF o.aa = a /\ B3(o.eqi, TRUE) THEN {} ELSE {<<"C01", "idempotence">>})
+         \cup (IF o.abc1 = o.abc2 /\ B3(o.eqa, TRUE) THEN {} ELSE {<<"C01", "associativity">>})
+
+MFrom(a, obs) ==
+    /\ also' = also \cup UNION {FromRules(obs[i], a) : i \in 1..Len(obs)}
+    /\ UNCHANGED <<nrep, seenIns, seenDel, bad>>
+MNLaw(a, b, c, obs) ==
+    /\ also' = also \cup UNION {NLawRules(obs[i], a, b, c) : i \in 1..Len(obs)}
+    /\ UNCHANGED <<nrep, seenIns, seenDel, bad>>
 MLaw(a, b, c, obs) ==
     /\ also' = also \cup UNION {LawRules(obs[i], a, b, c) : i \in 1..Len(obs)}
     /\ UNCHANGED <<nrep, seenIns, seenDel, bad>>
